@@ -18,7 +18,8 @@ import vf
 
 PROP_RULE = ("a case is one (width, slide, stream of (item, timestamp)) fed event by event into a fresh window; "
              "non-trivial when the implementation produced at least one firing with non-empty content; distinct by "
-             "(width, slide, stream). Exhaustive scope: every stream of at most N events whose successive timestamp "
+             "(width, slide, stream); a function-level `scope` case (width, slide, timestamps passed to scope on a fresh window) "
+             "is non-trivial when scope opened at least two windows. Exhaustive scope: every stream of at most N events whose successive timestamp "
              "gaps (the first one from 0) are in 0..3, for every width, slide in 1..4 (N=5 quick, 6 thorough).")
 
 FINDING_ID = "C09-hopping-gap"
@@ -33,10 +34,7 @@ def evs_coq(evs):
 def case_expr(c):
     if c.get("mode") == "scope":
         return "model_scope %d %d [%s]" % (c["w"], c["s"], "; ".join(str(t) for t in c["ts"]))
-    e = evs_coq(c["evs"])
-    if c.get("snap"):
-        return "(model_trace %d %d %s, model_check %d %d %s)" % (c["w"], c["s"], e, c["w"], c["s"], e)
-    return "((model_run %d %d %s, 0), model_check %d %d %s)" % (c["w"], c["s"], e, c["w"], c["s"], e)
+    return "%s %d %d %s" % ("model_case_trace" if c.get("snap") else "model_case", c["w"], c["s"], evs_coq(c["evs"]))
 
 
 def canon_items(el):
